@@ -425,6 +425,157 @@ fn loss_scenario(ty: Ty, peers: usize, policy: u8) -> Verdict {
     e3::finish(v)
 }
 
+/// A send is abandoned while it waits for a connection that does not accept data (what a timeout or
+/// select! around send() does), then the connection recovers: the set of connected peers never
+/// changed, so afterwards every send must succeed, consecutive successful sends must rotate strictly,
+/// and every wire must carry whole messages only, each accepted message exactly once.
+/// `how`: 0 = abandoned once nothing else can happen (a timeout), k >= 1 = abandoned after k polls.
+fn cancel_scenario(ty: Ty, peers: usize, shape: u8, how: u8, policy: u8) -> Verdict {
+    world::reset(world::WorldCfg { nested_env: false, yields: true, select: false, policy, coop: false });
+    let conns: Vec<e3::RawConn> = (0..peers).map(|p| e3::raw_conn(&format!("P{}", p))).collect();
+    for (p, c) in conns.iter().enumerate() {
+        c.send(&rc::handshake(ty.peer_type(), Some(format!("ID{}", p).as_bytes())));
+        if ty == Ty::Req {
+            e3::make_echo_peer(*c);
+        }
+    }
+    let sock = AnySocket::new(ty, None);
+    let viol = std::rc::Rc::new(std::cell::RefCell::new(Vec::<(String, String)>::new()));
+    let viol2 = viol.clone();
+    let conns2 = conns.clone();
+    // (message index, accepted?) in call order; abandoned sends are recorded as not accepted
+    let calls = std::rc::Rc::new(std::cell::RefCell::new(Vec::<(usize, char)>::new()));
+    let calls2 = calls.clone();
+    world::spawn_app("app", async move {
+        let mut sock = sock;
+        for c in &conns2 {
+            let _ = e3::attach_raw(sock.backend(), *c).await;
+        }
+        let n = conns2.len();
+        let mut i = 0usize;
+        // one healthy round
+        for _ in 0..n {
+            i += 1;
+            let r = sock.send(msg(&message(shape, i))).await;
+            calls2.borrow_mut().push((i, if r.is_ok() { 'w' } else { 'e' }));
+            if ty == Ty::Req && r.is_ok() {
+                let _ = world::until_idle(sock.recv()).await;
+            }
+        }
+        // peer 0's connection stops accepting data (after a little, for the large shape)
+        world::set_wmode(conns2[0].from_lib, if shape == 2 { WMode::Budget(70_000) } else { WMode::Stalled });
+        let mut abandoned = false;
+        for _ in 0..n {
+            i += 1;
+            let fut = sock.send(msg(&message(shape, i)));
+            let r = if how == 0 { world::until_idle(fut).await } else { world::poll_k_then_drop(fut, how as usize).await };
+            match r {
+                Some(r) => {
+                    calls2.borrow_mut().push((i, if r.is_ok() { 'w' } else { 'e' }));
+                    if ty == Ty::Req && r.is_ok() {
+                        let _ = world::until_idle(sock.recv()).await;
+                    }
+                }
+                None => {
+                    calls2.borrow_mut().push((i, 'c'));
+                    abandoned = true;
+                    break;
+                }
+            }
+        }
+        world::log(format!("abandoned a send: {}", abandoned));
+        // the connection recovers
+        world::set_wmode(conns2[0].from_lib, WMode::Open);
+        for _ in 0..(2 * n + 2) {
+            i += 1;
+            match world::until_idle(sock.send(msg(&message(shape, i)))).await {
+                Some(Ok(())) => calls2.borrow_mut().push((i, 'a')),
+                Some(Err(e)) => {
+                    viol2.borrow_mut().push(("after-abandoned-send/send-fails".into(), format!("send #{} failed with {} although all {} peers are connected and accept data", i, e3::err_class(&e), n)));
+                    return;
+                }
+                None => {
+                    viol2.borrow_mut().push(("after-abandoned-send/send-never-returns".into(), format!("send #{} did not return although all {} peers are connected and accept data", i, n)));
+                    return;
+                }
+            }
+            if ty == Ty::Req {
+                let _ = world::until_idle(sock.recv()).await;
+            }
+        }
+        world::set_cond("done");
+        world::wait_cond("never").await;
+        drop(sock);
+    });
+    let end = world::run(e3::HORIZON * 4);
+    let mut v = Verdict::default();
+    v.truncated = end != world::RunEnd::Quiescent;
+    let what = format!("{} with {} peers, message shape {}, a send abandoned {} while peer 0's connection accepts nothing, then the connection recovers", ty.name(), peers, shape, if how == 0 { "when nothing else can happen".to_string() } else { format!("after {} poll(s)", how) });
+    for p in world::panics() {
+        v.violate("panic", format!("{}: {}", what, p));
+    }
+    for (c, m) in viol.borrow().iter() {
+        v.violate(c.clone(), format!("{}: {}", what, m));
+    }
+    let calls = calls.borrow().clone();
+    if viol.borrow().is_empty() && world::panics().is_empty() && !v.truncated {
+        if !world::cond("done") {
+            v.violate("after-abandoned-send/app-stuck", format!("{}: the sender did not finish", what));
+        } else {
+            // where did every message end up?
+            let wires: Vec<Vec<Vec<Vec<u8>>>> = conns.iter().map(|c| c.tap_messages()).collect();
+            for (p, c) in conns.iter().enumerate() {
+                let t = c.tap();
+                let d = rc::decode_stream(&t, true);
+                if d.error.is_some() || d.consumed != t.len() {
+                    v.violate("after-abandoned-send/wire-malformed", format!("{}: peer {}'s wire does not end on a message boundary or is malformed ({:?}, {} of {} bytes parse)", what, p, d.error, d.consumed, t.len()));
+                }
+            }
+            let mut post: Vec<usize> = Vec::new();
+            for (i, kind) in &calls {
+                let mut m = message(shape, *i);
+                if ty == Ty::Req {
+                    m.insert(0, vec![]);
+                }
+                let at: Vec<usize> = wires.iter().enumerate().flat_map(|(p, w)| w.iter().filter(|x| **x == m).map(move |_| p)).collect();
+                match kind {
+                    'w' | 'a' => {
+                        if at.len() != 1 {
+                            v.violate("after-abandoned-send/accepted-message-not-exactly-once", format!("{}: message #{} was accepted by send but is on the wires {} times (peers {:?})", what, i, at.len(), at));
+                        } else if *kind == 'a' {
+                            post.push(at[0]);
+                        }
+                    }
+                    'c' => {
+                        if at.len() > 1 {
+                            v.violate("after-abandoned-send/abandoned-message-duplicated", format!("{}: the abandoned message #{} is on the wires {} times", what, i, at.len()));
+                        }
+                    }
+                    _ => {}
+                }
+            }
+            let total: usize = wires.iter().map(|w| w.len()).sum();
+            if total > calls.len() {
+                v.violate("after-abandoned-send/extra-messages", format!("{}: {} messages on the wires for {} send calls", what, total, calls.len()));
+            }
+            if peers >= 1 && post.len() >= peers {
+                for w in post.windows(peers) {
+                    let mut s = w.to_vec();
+                    s.sort();
+                    s.dedup();
+                    if s.len() != peers {
+                        v.violate("after-abandoned-send/rotation", format!("{}: with {} connected peers the successful sends after the recovery went to peers {:?}", what, peers, post));
+                        break;
+                    }
+                }
+            }
+        }
+    }
+    let canon: Vec<String> = calls.iter().map(|(i, k)| format!("{}{}", i, k)).collect();
+    v.outcome_hash = rc::fnv(canon.join("|").as_bytes()) ^ rc::fnv(e3::canon_log().join("|").as_bytes());
+    e3::finish(v)
+}
+
 fn pj(p: &Params) -> Value {
     json!({"type": p.ty.name(), "peers": p.peers, "shape": p.shape, "wmode": p.wmode, "early_sends": p.early_sends, "policy": p.policy})
 }
@@ -449,6 +600,10 @@ pub fn run(tier: Tier, replay: Option<String>) -> i32 {
             if p["scenario"] == "reconnect" {
                 let (ty, o, pol) = (Ty::from_name(p["type"].as_str()?)?, p["observed"].as_bool()?, p["policy"].as_u64()? as u8);
                 return Some(std::sync::Arc::new(move || reconnect_scenario(ty, o, pol)) as zvcore::explore::Scenario);
+            }
+            if p["scenario"] == "cancel" {
+                let (ty, n, sh, how, pol) = (Ty::from_name(p["type"].as_str()?)?, p["peers"].as_u64()? as usize, p["shape"].as_u64()? as u8, p["how"].as_u64()? as u8, p["policy"].as_u64()? as u8);
+                return Some(std::sync::Arc::new(move || cancel_scenario(ty, n, sh, how, pol)) as zvcore::explore::Scenario);
             }
             if p["scenario"] == "loss" {
                 let (ty, n, pol) = (Ty::from_name(p["type"].as_str()?)?, p["peers"].as_u64()? as usize, p["policy"].as_u64()? as u8);
@@ -505,13 +660,33 @@ pub fn run(tier: Tier, replay: Option<String>) -> i32 {
             }
         }
     }
+    for ty in [Ty::Push, Ty::Dealer, Ty::Req] {
+        for peers in 1..=tier.pick(2usize, 3usize) {
+            for shape in 0..3u8 {
+                for how in 0..=tier.pick(2u8, 4u8) {
+                    for policy in 0..3u8 {
+                        if shape == 2 && policy != 0 && tier == Tier::Quick {
+                            continue;
+                        }
+                        jobs.push(e3::job(
+                            format!("C10/cancel/{}/{}p/shape{}/how{}/policy{}", ty.name(), peers, shape, how, policy),
+                            json!({"scenario":"cancel","type":ty.name(),"peers":peers,"shape":shape,"how":how,"policy":policy}),
+                            if shape == 2 { tier.pick(0, 1) } else { tier.pick(1, 2) },
+                            200_000,
+                            move || cancel_scenario(ty, peers, shape, how, policy),
+                        ));
+                    }
+                }
+            }
+        }
+    }
     e3::run_jobs_into(&mut ck, jobs, false);
     let ex = ck.coverage.get("e3_executions").and_then(|v| v.as_u64()).unwrap_or(0);
     ck.cov("states", ck.coverage.get("e3_distinct_outcomes").and_then(|v| v.as_u64()).unwrap_or(0).max(1));
     ck.cov("transitions", ex);
     ck.cov("traces_validated_against_impl", ex);
     ck.cov("exhaustive", ck.coverage.get("e3_scenarios_capped").and_then(|v| v.as_u64()) == Some(0));
-    ck.cov("explanation", "PUSH, DEALER and REQ (REQ against echo peers with a recv between sends) x 0..2 (thorough 3) raw peers x 3 message shapes (1 frame / 3 frames with an empty one / 200 kB) x write mode of one connection (accept all / a few bytes per write / stall-then-resume as scripted environment events) x sends racing with the joins or not x 3 default policies, every schedule within the deviation bound (each attach is an actor the scheduler may run before, between or during sends; yield points after pop / after upsert / after rr push). Oracle evaluated at the very step send returns: exactly one peer's application bytes (bytes accepted by the pipe after greeting+READY) grew, by exactly the reference encoding of the message with nothing left in the framed writer; with all n peers joined any n consecutive successful sends hit n distinct peers; with no peer the send fails with ReturnToSender carrying identical frames and no wire grows. Peer-loss family: 1-3 peers die one after the other (failing writes) while sends go on: a send to a surviving peer puts exactly the message's encoding on that wire, and once nobody is left the send hands the message back intact. Reconnect family: a peer with an announced identity dies (noticed through failing sends, or not yet noticed) and a new connection announces the same identity; afterwards consecutive successful sends must alternate strictly between the two connected peers. states = distinct observed outcomes; transitions = executions.");
+    ck.cov("explanation", "PUSH, DEALER and REQ (REQ against echo peers with a recv between sends) x 0..2 (thorough 3) raw peers x 3 message shapes (1 frame / 3 frames with an empty one / 200 kB) x write mode of one connection (accept all / a few bytes per write / stall-then-resume as scripted environment events) x sends racing with the joins or not x 3 default policies, every schedule within the deviation bound (each attach is an actor the scheduler may run before, between or during sends; yield points after pop / after upsert / after rr push). Oracle evaluated at the very step send returns: exactly one peer's application bytes (bytes accepted by the pipe after greeting+READY) grew, by exactly the reference encoding of the message with nothing left in the framed writer; with all n peers joined any n consecutive successful sends hit n distinct peers; with no peer the send fails with ReturnToSender carrying identical frames and no wire grows. Peer-loss family: 1-3 peers die one after the other (failing writes) while sends go on: a send to a surviving peer puts exactly the message's encoding on that wire, and once nobody is left the send hands the message back intact. Reconnect family: a peer with an announced identity dies (noticed through failing sends, or not yet noticed) and a new connection announces the same identity; afterwards consecutive successful sends must alternate strictly between the two connected peers. Abandoned-send family: after one healthy round peer 0's connection stops accepting data, a send is abandoned while it waits for it (dropped once nothing else can happen, as a timeout does, or after 1..2 (thorough 4) polls), the connection recovers: every later send must succeed, successful sends rotate strictly, every wire carries whole messages only and each accepted message exactly once. states = distinct observed outcomes; transitions = executions.");
     ck.assume("a send may legitimately fail or succeed while a peer is between its registration steps; rotation is judged over the phase after every attach has returned");
     ck.conclude()
 }
